@@ -16,7 +16,7 @@ for sid in sys.argv[2:]:
     d = os.path.join(SD, sid)
     meta = json.load(open(os.path.join(d, 'meta.json')))
     cmd = meta['demo_cmd']
-    crate = re.search(r'-p (\S+)', cmd).group(1)
+    crate = re.search(r'cargo test.*?-p (\S+)', cmd).group(1)
     tname = re.search(r'--test (\S+)', cmd).group(1)
     demos = [f for f in glob.glob(os.path.join(d, '*.rs'))]
     assert len(demos) == 1, demos
